@@ -349,7 +349,7 @@ func genTraceScenarios(c *fw.Ctx, n int, emit func(*traceScenario)) {
 // C07 – truthful error location and include trace.
 func C07(c *fw.Ctx) {
 	c.Rule("location part: every rejected case of the hostile workload (corpus, truncations, stacked mutants, dictionary strings, EOL variants, " +
-		"include/macro graphs); trace part: generated include chains of depth 1-4 with sub-directories (also files of the same name in nested directories), earlier/later sibling includes, the same " +
+		"include/macro graphs, and 1 116 documents with the error on a line of 185..215 bytes filled with 1- to 4-byte characters); trace part: generated include chains of depth 1-4 with sub-directories (also files of the same name in nested directories), earlier/later sibling includes, the same " +
 		"file included twice, diamonds, LF/CRLF/CR, with one fault whose occurrence is unambiguous; distinct = distinct project bytes; " +
 		"non-trivial = the build was rejected with a located error")
 	c.Assume("line/column are judged only for files with one line-ending convention; index = len(file) is the position after the last byte and has the line/column of a cursor there")
@@ -363,6 +363,30 @@ func C07(c *fw.Ctx) {
 		hostileBytes(c, c.Pick(1, 10), e)
 		macroGraphs(c, e)
 		includeGraphs(c, c.Pick(200, 5000), e)
+		// errors on lines around the 200-byte limit of the quote: every length 185..215, fillers of 1- to 4-byte characters at every
+		// alignment, in the root and in an included file, three line-ending conventions
+		nLong := 0
+		for L := 185; L <= 215; L++ {
+			for _, unit := range []string{"x", "é", "日", "😀"} {
+				for _, eol := range []string{"\n", "\r\n", "\r"} {
+					for kind := 0; kind < 3; kind++ {
+						head := []string{"Body any // ", "TYPE @dup any // ", "  Body any /* "}[kind]
+						tail := []string{"", "", " */"}[kind]
+						room := L - len(head) - len(tail)
+						n := room / len(unit)
+						line := head + strings.Repeat("x", room-n*len(unit)) + strings.Repeat(unit, n) + tail
+						doc := "JSIGHT 0.3" + eol + "TYPE @dup any" + eol + line + eol
+						nLong++
+						if kind == 1 && L%2 == 0 {
+							emit(&proto.Job{ID: fmt.Sprintf("longline/%d", nLong), Root: "root.jst", Files: map[string][]byte{
+								"root.jst": []byte("JSIGHT 0.3" + eol + "TYPE @dup any" + eol + "INCLUDE piece.jst" + eol), "piece.jst": []byte(line + eol)}})
+							continue
+						}
+						emit(singleJob(fmt.Sprintf("longline/%d", nLong), []byte(doc), false))
+					}
+				}
+			}
+		}
 		genTraceScenarios(c, c.Pick(2000, 60000), func(sc *traceScenario) {
 			sc.job.ID = "trace/" + sc.job.ID
 			maxMuLock.Lock()
